@@ -33,7 +33,14 @@ impl Nonce {
 
     pub fn new_from_hash(hash: Vec<u8>) -> Result<Nonce, JsError> {
         use std::convert::TryInto;
-        match hash[..Self::HASH_LEN].try_into() {
+        let prefix = hash.get(..Self::HASH_LEN).ok_or_else(|| {
+            JsError::from_str(&format!(
+                "Nonce hash needs {} bytes, got {}",
+                Self::HASH_LEN,
+                hash.len()
+            ))
+        })?;
+        match prefix.try_into() {
             Ok(bytes_correct_size) => Ok(Self {
                 hash: Some(bytes_correct_size),
             }),
